@@ -319,7 +319,7 @@ def build_native(ctx, q, prep, sanitize=True):
     hc = ['gcc', '-O1', '-g', '-DVP_NATIVE_REAL', '-Wno-incompatible-pointer-types', '-Wno-int-conversion'] + san + ['-I', prep['dir'], '-I', os.path.join(VERIF, 'rt'), '-I', os.path.join(VERIF, 'harness')] + ['-D%s=%s' % kv for kv in defs.items()] + ['-c', os.path.join(VERIF, 'harness', q.harness), '-o', hobj]
     r = run(hc, timeout=300)
     if r['rc'] != 0: return ('error', r['err'][-2000:])
-    r = run(['g++'] + san + [hobj] + objs + ['-o', exe, '-pthread'], timeout=300)
+    r = run(['g++'] + san + [hobj] + objs + ['-o', exe, '-pthread', '-rdynamic', '-ldl'], timeout=300)
     if r['rc'] != 0: return ('error', r['err'][-2000:])
     return ('ok', exe)
 
@@ -466,7 +466,7 @@ def write_evidence(pid, tier, seed, mod, queries, results, violations, known_hit
                    'witnesses': r.get('witnesses'), 'witnesses_reached': r.get('witnesses_reached'), 'wall_s': round(r.get('wall', 0), 2),
                    'solver_s': round(c.get('solver_s') or 0, 2), 'symex_steps': c.get('steps'), 'sat_variables': c.get('vars'), 'sat_clauses': c.get('clauses'),
                    'roots': (r.get('prep') or {}).get('roots'), 'bound': q.bound, 'witness_replay': r.get('witness_replay'),
-                   'ir_sha1': info.get('ir_sha1'), 'abort_sites_in_scope': sorted(set(info.get('abort_sites', [])))[:40], 'unreproduced': r.get('unreproduced')})
+                   'ir_sha1': info.get('ir_sha1'), 'mutable_module_level_objects_in_scope': info.get('mutable_globals'), 'abort_sites_in_scope': sorted(set(info.get('abort_sites', [])))[:40], 'unreproduced': r.get('unreproduced')})
         if r.get('witness_sample') is not None and len(samples) < 12:
             samples.append({'query': q.name, 'bound': q.bound or q.defs, 'witness_input_vector': r['witness_sample'][:64]})
         for m in q.models: assumptions.add('environment model rt/model_%s.c' % m)
